@@ -6,6 +6,7 @@ package corerad
 import (
 	"bytes"
 	"fmt"
+	"net/netip"
 	"strings"
 	"time"
 
@@ -28,6 +29,14 @@ var c03Pref64 = []string{
 }
 
 func c03Gen(rng *verifsim.RNG, idx int, tier string) *Plan {
+	// A share of the runs drives RA generation through the plugins' clock seam,
+	// every call of the clock getting the next reading (C16's component
+	// scenario): a duration computed from two readings that straddle a deadline
+	// must still be one its wire field can carry and the configuration meant.
+	if q := c16Gen(rng, idx, tier); q.Scenario == "clock" && q.Opt["per_call"] == 1 {
+		q.Class = "clock-seam-per-call"
+		return q
+	}
 	p := oneAdvertiser(rng)
 	n := &p.Nodes[0]
 	s := &n.Config.Interfaces[0]
@@ -155,6 +164,10 @@ func c03Oracle(info *runInfo, res *verifsim.Result) {
 		res.Skipped = "config_rejected"
 		return
 	}
+	if info.plan.Scenario == "clock" {
+		c03Clock(info, res)
+		return
+	}
 	h := analyse(info.ev)
 	checked := 0
 	for _, w := range h.writes {
@@ -193,6 +206,57 @@ func c03Oracle(info *runInfo, res *verifsim.Result) {
 		}
 	}
 	res.Nontrivial = checked >= 1
+}
+
+// c03Clock: RAs built under a clock that advances between two readings. A
+// deprecated lifetime is a time remaining: never more than what was configured,
+// whatever the readings (a negative duration shows up as ~2^32 on the wire).
+func c03Clock(info *runInfo, res *verifsim.Result) {
+	spec := &info.plan.Nodes[0].Config.Interfaces[0]
+	n := 0
+	for i := range info.ev {
+		e := &info.ev[i]
+		if e.K != "clock.build" {
+			continue
+		}
+		if e.Err != "" {
+			res.Violate("C03.encode", "encode:"+strings.TrimPrefix(e.Err, "marshal: "), "RA generation failed at clock reading %s: %s", time.Duration(e.V), e.Err)
+			continue
+		}
+		ra := parseRA(e.B)
+		n++
+		if e.V < 0 {
+			continue // a reading before the daemon's start (clock set back): more than configured remains
+		}
+		for _, o := range ra.Options {
+			switch o := o.(type) {
+			case *ndp.PrefixInformation:
+				for _, ps := range spec.Prefixes {
+					if !ps.Deprecated || ps.Prefix == nil || *ps.Prefix != netip.PrefixFrom(o.Prefix, int(o.PrefixLength)).String() {
+						continue
+					}
+					v, _ := dparse(ps.Valid, 24*time.Hour)
+					q, _ := dparse(ps.Preferred, 4*time.Hour)
+					if o.ValidLifetime > v || o.PreferredLifetime > q {
+						res.Violate("C03.meaning", "meaning:deprecated-exceeds", "clock reading epoch%+v (+%s within the build): deprecated prefix %s advertises valid=%s preferred=%s, more than the configured %s / %s",
+							time.Duration(e.V), time.Duration(e.Ref), *ps.Prefix, o.ValidLifetime, o.PreferredLifetime, v, q)
+					}
+				}
+			case *ndp.RouteInformation:
+				for _, rs := range spec.Routes {
+					if !rs.Deprecated || rs.Prefix == nil || *rs.Prefix != netip.PrefixFrom(o.Prefix, int(o.PrefixLength)).String() {
+						continue
+					}
+					v, _ := dparse(rs.Lifetime, 24*time.Hour)
+					if o.RouteLifetime > v {
+						res.Violate("C03.meaning", "meaning:deprecated-exceeds", "clock reading epoch%+v (+%s within the build): deprecated route %s advertises lifetime=%s, more than the configured %s",
+							time.Duration(e.V), time.Duration(e.Ref), *rs.Prefix, o.RouteLifetime, v)
+					}
+				}
+			}
+		}
+	}
+	res.Nontrivial = n >= 2
 }
 
 // unrepKinds reduces the list of unrepresentable values to the key names.
